@@ -327,6 +327,8 @@ def check(scenario, w, st, res):
     if exp['construct'] != 'ok':
         return
     ob()
+    if sim.end_state == 'inconclusive':
+        return
     if sim.end_state != 'done':
         V.append(('C09/%s' % sim.end_state, repr(sim.end_detail)))
         return
